@@ -165,6 +165,11 @@ func (sm *Subscriptions) ProcessWhen(activated, deactivated S) []chan struct{} {
 			if binding.Matched < binding.Total && !expired {
 				continue
 			}
+			// states get counted one by one, so the counter may peak before
+			// another state of the same transition is accounted for
+			if !expired && !sm.confirmWhen(binding) {
+				continue
+			}
 
 			// completed - rm binding and collect ch
 			sm.gcWhenBinding(binding, true)
@@ -173,6 +178,16 @@ func (sm *Subscriptions) ProcessWhen(activated, deactivated S) []chan struct{} {
 	}
 
 	return ret
+}
+
+// confirmWhen checks a matched binding against the actual active states.
+func (sm *Subscriptions) confirmWhen(binding *WhenBinding) bool {
+	names := slices.Collect(maps.Keys(binding.States))
+	if binding.Negation {
+		return sm.not(names)
+	}
+
+	return sm.is(names)
 }
 
 func (sm *Subscriptions) processWhenCtx() []chan struct{} {
